@@ -42,7 +42,7 @@ type SolveResult struct {
 	All    map[string]string // per-solver status
 }
 
-var sanitizeFile = regexp.MustCompile(`[^A-Za-z0-9_.()\[\]#@~=+-]`)
+var sanitizeFile = regexp.MustCompile(`[^A-Za-z0-9_.()\[\]#@~+-]`)
 
 func obligFile(dir, name string) string {
 	n := sanitizeFile.ReplaceAllString(name, "_")
